@@ -8,7 +8,11 @@ def get_frame_fallback(n):
     except Exception:
         frame = exc_info()[2].tb_frame.f_back
         for _ in range(n):
+            if frame is None:
+                break
             frame = frame.f_back
+        if frame is None:
+            raise ValueError("call stack is not deep enough") from None
         return frame
 
 
